@@ -210,7 +210,7 @@ impl Check for C18 {
     fn cases(&self, tier: Tier) -> u64 {
         match tier {
             Tier::Quick => 50_000,
-            Tier::Thorough => 160_000,
+            Tier::Thorough => 500_000,
         }
     }
     fn langs(&self) -> Vec<&'static str> {
